@@ -233,6 +233,55 @@ pub fn run(tier: &str, seed: u64) -> Stats {
             st.samples.push(json!({"round": round, "state": desc, "rekey_policy": rp, "fallible_steps_so_far": st.get("fallible_steps_found"), "injected_so_far": st.get("injected_failures")}));
         }
     }
+    // a wide state: > 256 rights touched by one rekey / update (position of the failing right among
+    // hundreds)
+    let wide_rounds = if tier == "thorough" { 3 } else { 1 };
+    for _ in 0..wide_rounds {
+        let cc = Covercrypt::default();
+        let Some((mut msk, _)) = call(|| cc.setup()).ok() else { continue };
+        let _ = msk.access_structure.add_anarchy("W".into());
+        let _ = msk.access_structure.add_hierarchy("H".into());
+        for i in 0..140 {
+            let _ = msk.access_structure.add_attribute(QualifiedAttribute::new("W", &format!("a{i}")), hint(false), None);
+        }
+        let _ = msk.access_structure.add_attribute(QualifiedAttribute::new("H", "L"), hint(false), None);
+        if call(|| cc.update_msk(&mut msk)).ok().is_none() {
+            continue;
+        }
+        let star = AccessPolicy::parse("*").unwrap();
+        let Some(mb) = ser(&msk).ok() else { continue };
+        enumerate_failures(&mut st, "rekey", "wide/282rights/rekey=*", &mb, None, &|cc, m, _| cc.rekey(m, &star).map(|_| ()));
+        // natural failure: one right of the rekeyed set is not in the master key yet
+        let mut m2 = de::<MasterSecretKey>(&mb).ok().unwrap();
+        let _ = m2.access_structure.add_attribute(QualifiedAttribute::new("W", "new"), hint(false), None);
+        let before = canon(&m2);
+        for _ in 0..8 {
+            let out = call(|| cc.rekey(&mut m2, &star));
+            st.bump("natural_error_wide_rekey");
+            st.shapes.insert(fnv(b"wide-natural-rekey"));
+            if let Out::Err(_) = out {
+                if canon(&m2) != before {
+                    st.findings.push(Finding {
+                        prop: "C10".into(),
+                        signature: "C10:msk-changed-by-failed-call:rekey:wide".into(),
+                        detail: "rekey over 284 rights, one of which the master key does not hold, returned an error and changed the master key".into(),
+                        replay: json!({"monitor": "c10fp", "op": "wide-rekey"}),
+                    });
+                    break;
+                }
+                st.bump("failed_call_state_unchanged");
+            }
+        }
+        if let Some(mb2) = ser(&{
+            let mut m3 = de::<MasterSecretKey>(&mb).ok().unwrap();
+            let _ = m3.access_structure.add_attribute(QualifiedAttribute::new("H", "T"), hint(false), Some("L"));
+            m3
+        })
+        .ok()
+        {
+            enumerate_failures(&mut st, "update", "wide/add=H::T(141 new rights)", &mb2, None, &|cc, m, _| cc.update_msk(m).map(|_| ()));
+        }
+    }
     let mut seen = std::collections::BTreeSet::new();
     st.findings.retain(|f| seen.insert(f.signature.clone()));
     st
